@@ -197,6 +197,7 @@ struct FnDir {
     no_return_name: bool,
     drop_sites: bool,
     safety: Option<String>,
+    imported_from: Option<String>,
 }
 
 #[derive(Default, Debug, Clone)]
@@ -223,6 +224,7 @@ struct AtDir {
 }
 
 enum Piece {
+    Import(usize, String, String),
     Prelude(String, usize, String),
     Struct(usize, String),
     Func(FnDir),
@@ -272,6 +274,14 @@ fn parse_unit(path: &str) -> (Vec<Piece>, Vec<(String, String)>) {
                 let (p2, b2) = parse_unit(&inc.to_string_lossy());
                 pieces.extend(p2);
                 bound_map.extend(b2);
+                i += 1;
+                continue;
+            }
+            if let Some(a) = rest.strip_prefix("import ") {
+                // //@ import <unit file> <anchor>: the callee's contract, proved in that unit, assumed here
+                let (u, anchor) = a.trim().split_once(' ').unwrap_or_else(|| bail!("line {}: import <unit> <anchor>", i + 1));
+                let inc = std::path::Path::new(path).parent().unwrap().join(u.trim());
+                pieces.push(Piece::Import(i + 1, inc.to_string_lossy().to_string(), anchor.trim().to_string()));
                 i += 1;
                 continue;
             }
@@ -850,6 +860,25 @@ fn main() {
                 let src = srcs.entry(file.to_string()).or_insert_with(|| Src::load(root, file));
                 emit_struct(src, path, &bound_map, &mut out, &mut functions);
             }
+            Piece::Import(ln, ufile, anchor) => {
+                let (p2, _) = parse_unit(ufile);
+                let mut found: Option<FnDir> = None;
+                for p in p2 {
+                    if let Piece::Func(fd) = p {
+                        if &fd.anchor == anchor {
+                            found = Some(fd);
+                        }
+                    }
+                }
+                let mut fd = found.unwrap_or_else(|| bail!("line {}: import: {} has no //@ fn {}", ln, ufile, anchor));
+                fd.imported_from = Some(std::path::Path::new(ufile).file_name().unwrap().to_string_lossy().to_string());
+                fd.ats.clear();
+                fd.loops.clear();
+                let (file, path) = fd.anchor.split_once("::").unwrap_or_else(|| bail!("bad anchor {}", fd.anchor));
+                let src = srcs.entry(file.to_string()).or_insert_with(|| Src::load(root, file));
+                let un = fd.imported_from.clone().unwrap();
+                emit_fn(src, path, &fd, &bound_map, &un, &mut out, &mut functions, &mut clauses_json);
+            }
             Piece::Func(fd) => {
                 let (file, path) = fd.anchor.split_once("::").unwrap_or_else(|| bail!("line {}: bad anchor {}", fd.vrs_line, fd.anchor));
                 let src = srcs.entry(file.to_string()).or_insert_with(|| Src::load(root, file));
@@ -1064,14 +1093,18 @@ fn emit_fn(src: &Src, path: &str, fd: &FnDir, bm: &[(String, String)], unit: &st
     edits.extend(clause_edit(sig_end, "ensures", &fd.ensures, unit, 1000, "    "));
     edits.extend(clause_edit(sig_end, "decreases", &fd.decreases, unit, 2000, "    "));
 
+    let imported = fd.imported_from.is_some();
     // ---- body rules
     let mut rules = Rules { src, edits: vec![], stmts: vec![], loops: vec![], rename_self, unsupported: vec![] };
-    rules.visit_block(block);
-    if let Some(e) = block.stmts.last() {
-        let _ = e;
+    if !imported {
+        rules.visit_block(block);
     }
     let Rules { edits: body_edits, stmts, loops, unsupported, .. } = rules;
     edits.extend(body_edits);
+    if imported {
+        // the callee is verified in its own unit; here only its contract is visible
+        edits.push(Edit { start: body_open.0, end: fn_end, rule: "IMPORT".into(), parts: vec![lit("{ unimplemented!() }")], origin: None, prio: 0 });
+    }
 
     // ---- loop clauses
     for (n, ld) in &fd.loops {
@@ -1174,9 +1207,11 @@ fn emit_fn(src: &Src, path: &str, fd: &FnDir, bm: &[(String, String)], unit: &st
     }
 
     // canary sites (vacuity guard): body entry and the end of every loop body
+    if !imported {
     edits.push(Edit { start: body_open.1, end: body_open.1, rule: "MARK".into(), parts: vec![lit("/*@body*/")], origin: Some(format!("gen:{}", unit)), prio: -1000 });
     for l in &loops {
         edits.push(Edit { start: l.2, end: l.2, rule: "MARK".into(), parts: vec![lit("/*@loopend*/")], origin: Some(format!("gen:{}", unit)), prio: 100000 });
+    }
     }
 
     if !lost.is_empty() {
@@ -1199,7 +1234,11 @@ fn emit_fn(src: &Src, path: &str, fd: &FnDir, bm: &[(String, String)], unit: &st
     };
     // every extracted function gets its own solver process: an earlier failure must not perturb
     // the search for a later function (observed: rlimit blow-up after an unrelated failure)
-    let _ = writeln!(out.text, "#[verifier::spinoff_prover]");
+    if imported {
+        let _ = writeln!(out.text, "#[verifier::external_body]");
+    } else {
+        let _ = writeln!(out.text, "#[verifier::spinoff_prover]");
+    }
     for a in &fd.attrs {
         let _ = writeln!(out.text, "{}", a);
     }
@@ -1209,10 +1248,13 @@ fn emit_fn(src: &Src, path: &str, fd: &FnDir, bm: &[(String, String)], unit: &st
     if wrap {
         out.text.push_str("}\n");
     }
-    functions.push(json!({"kind": "fn", "anchor": format!("{}::{}", src.rel, path), "file": src.rel, "item_id": k,
+    functions.push(json!({"kind": if imported { "imported-contract" } else { "fn" }, "imported_from": fd.imported_from, "anchor": format!("{}::{}", src.rel, path), "file": src.rel, "item_id": k,
         "start": fn_start, "end": fn_end, "line": src.line_of(fn_start), "end_line": src.line_of(fn_end),
         "impl_header": impl_hdr, "text": &src.text[fn_start..fn_end],
         "loops": loops.len(), "statements": stmts.len()}));
+    if imported {
+        return;
+    }
     for (kind, cl) in [("requires", &fd.requires), ("ensures", &fd.ensures), ("decreases", &fd.decreases)] {
         for c in cl.iter() {
             clauses_json.push(json!({"id": c.id, "kind": kind, "fn": format!("{}::{}", src.rel, path), "text": c.text, "vrs_line": c.vrs_line}));
